@@ -192,11 +192,15 @@ def run(ctx):
             ctx.checked("indexerror")
             if expect_err:
                 ctx.probe("untracked_index_used")
+                ctx.fault("untracked_index_then_continue")
                 if err != "IndexError":
                     ctx.violate("indexerror", f"untracked-index-accepted:{'extend' if via_extend else 'add'}:{err}",
                                 {"model": [None if e is None else e[0] for e in model]}, stop=True)
-                return  # fail-stop: nothing is promised about the builder afterwards
-            if err is not None:
+                # the refused command changes nothing; the commands of the same extend() that came before it were
+                # applied.  The caller catches the error and goes on: apply those to the plain builder and continue.
+                plan = plan[:-1]
+                tnodes = None
+            elif err is not None:
                 ctx.violate("indexerror" if err == "IndexError" else "no-crash",
                             f"valid-command-raised:{err}", {"cmds": [c[0] for c in tcmds]}, stop=True)
             # plain builder: explicit wires
@@ -207,7 +211,8 @@ def run(ctx):
                         raise AssertionError("pending key leaked")
                     pw.append(wires[pk][0])
                 pn = p.add_op(mk(), *pw, metadata=md) if md is not None else p.add_op(mk(), *pw)
-                tn = tnodes[ci]
+                from hugr.hugr.node_port import Node as _Node
+                tn = tnodes[ci] if tnodes is not None else _Node(pn.idx)  # lock-step: same indices in both builders
                 # new wires
                 for j, ok in enumerate(outs):
                     kind = ok if ok != "*" else wires[pargs[0]][1]
@@ -267,7 +272,10 @@ def run(ctx):
                     ctx.violate("indexerror", "untracked-index-accepted:untrack_wire", {"index": i}, stop=True)
                 except IndexError:
                     ctx.ev(0, "untrack_wire", i, "IndexError")
-                return
+                ctx.fault("untracked_index_then_continue")
+                check_tracked("refused-untrack_wire")
+                check_hugrs("refused-untrack_wire")
+                continue
             i = ch.pick([j for j, e in enumerate(model) if e is not None], "untrack-idx")
             w = t.untrack_wire(i)
             ctx.ev(0, "untrack_wire", i, list(wkey(w)))
